@@ -134,7 +134,10 @@ pub fn check_case(case: &Case, ctx: &mut Ctx) {
                     Ok(v) => {
                         ctx.out_bd(&v);
                         let g = Dec::of(&v);
-                        ctx.check(model::eq_dec(&g, &want), "rem/wrong-value", case, || format!("`{}`: {} % {} = {} want {}", name, ad.tok(), bd.tok(), g.tok(), want.tok()));
+                        let held = ctx.check(model::eq_dec(&g, &want), "rem/wrong-value", case, || format!("`{}`: {} % {} = {} want {}", name, ad.tok(), bd.tok(), g.tok(), want.tok()));
+                        if name == "&BigDecimal % &BigDecimal" && ctx.want_event() && case.arg(0).len() + case.arg(1).len() < 600 && (ad.s as i128 - bd.s as i128).abs() < 1500 {
+                            ctx.log("rem", &[ad.tok(), bd.tok()], serde_json::json!({}), g.tok(), held);
+                        }
                         // the clauses, decided independently of the expected value
                         let absr = Dec::new(g.n.abs(), g.s);
                         let absb = Dec::new(bd.n.abs(), bd.s);
